@@ -51,6 +51,43 @@ func r7errFromCall(v ssa.Value, seen map[ssa.Value]bool) (ssa.CallInstruction, b
 	return nil, false
 }
 
+// r7sentinelHelper: fn is a repo predicate `func(err error) bool { return err == <package-level error variable> }` (or !=):
+// the index of the compared parameter, whether true means "is the sentinel", and the variable.
+func r7sentinelHelper(fn *ssa.Function) (int, bool, *ssa.Global, bool) {
+	if fn == nil || fn.Blocks == nil || len(fn.Blocks) != 1 || !core.InRepo(core.FuncPkg(fn)) {
+		return 0, false, nil, false
+	}
+	b := fn.Blocks[0]
+	ret, ok := b.Instrs[len(b.Instrs)-1].(*ssa.Return)
+	if !ok || len(ret.Results) != 1 {
+		return 0, false, nil, false
+	}
+	bo, ok := ret.Results[0].(*ssa.BinOp)
+	if !ok || (bo.Op != token.EQL && bo.Op != token.NEQ) {
+		return 0, false, nil, false
+	}
+	glob := func(v ssa.Value) *ssa.Global {
+		if u, ok := v.(*ssa.UnOp); ok && u.Op == token.MUL {
+			g, _ := u.X.(*ssa.Global)
+			return g
+		}
+		return nil
+	}
+	for _, pair := range [][2]ssa.Value{{bo.X, bo.Y}, {bo.Y, bo.X}} {
+		prm, ok := pair[0].(*ssa.Parameter)
+		g := glob(pair[1])
+		if !ok || g == nil {
+			continue
+		}
+		for i, fp := range fn.Params {
+			if fp == prm {
+				return i, bo.Op == token.EQL, g, true
+			}
+		}
+	}
+	return 0, false, nil, false
+}
+
 // r7sentinelEdge: block x ends in a test `ev == <package-level error variable>` (or !=, or errors.Is(ev, <variable>)):
 // the successor on which the error IS the sentinel is returned — an end-of-input or not-found sentinel is not a failure.
 func r7sentinelEdge(x *ssa.BasicBlock, ev ssa.Value) *ssa.BasicBlock {
@@ -93,6 +130,24 @@ func r7sentinelEdge(x *ssa.BasicBlock, ev ssa.Value) *ssa.BasicBlock {
 		}
 		return false
 	}
+	cond := ifi.Cond
+	tEdge, fEdge := x.Succs[0], x.Succs[1]
+	for {
+		u, ok := cond.(*ssa.UnOp)
+		if !ok || u.Op != token.NOT {
+			break
+		}
+		cond = u.X
+		tEdge, fEdge = fEdge, tEdge
+	}
+	if call, ok := cond.(*ssa.Call); ok {
+		if idx, eqTrue, _, ok := r7sentinelHelper(call.Call.StaticCallee()); ok && idx < len(call.Call.Args) && same(call.Call.Args[idx]) {
+			if eqTrue {
+				return tEdge
+			}
+			return fEdge
+		}
+	}
 	switch c := ifi.Cond.(type) {
 	case *ssa.BinOp:
 		if c.Op != token.EQL && c.Op != token.NEQ {
@@ -128,6 +183,34 @@ func r7selectionHelper(f *ssa.Function, call ssa.CallInstruction) bool {
 	}
 	o := core.CalleeObj(call)
 	return o != nil && o.Pkg() != nil && o.Pkg() == core.FuncPkg(f)
+}
+
+// r7xpathComputation: the failing call is a function of f's own package whose first result is a string that f hands to
+// package idr as a query (an argument of a call into idr next to a *idr.Node): the xpath computation. Its failure means
+// "nothing selected" wherever the selection is made (benign 76: the array loop split into a helper).
+func r7xpathComputation(f *ssa.Function, call ssa.CallInstruction) bool {
+	o := core.CalleeObj(call)
+	cv, isCall := call.(*ssa.Call)
+	if o == nil || o.Pkg() == nil || o.Pkg() != core.FuncPkg(f) || !isCall {
+		return false
+	}
+	for _, u := range core.Referrers(cv) {
+		ex, ok := u.(*ssa.Extract)
+		if !ok || ex.Index != 0 {
+			continue
+		}
+		if bt, ok := ex.Type().Underlying().(*types.Basic); !ok || bt.Info()&types.IsString == 0 {
+			continue
+		}
+		for _, uu := range core.Referrers(ex) {
+			if ci, ok := uu.(ssa.CallInstruction); ok {
+				if co := core.CalleeObj(ci); co != nil && co.Pkg() != nil && core.Rel(co.Pkg().Path()) == "idr" {
+					return true
+				}
+			}
+		}
+	}
+	return false
 }
 
 // errorPathNotSwallowed: for every `if err != nil` / `if err == nil` on an error that comes from a call, walk forward
@@ -238,8 +321,8 @@ func errorPathNotSwallowed(c *core.Ctx, rule string, pkgs []string, allow map[st
 			switch {
 			case bad == nil:
 				c.OK(rule, key, core.InstrPos(ifi), "no return with a nil error is reachable from the failure edge")
-			case allow[key] != "" || r7selectionHelper(f, call):
-				c.Arg(rule, key, core.InstrPos(bad), "intended: a node-selection helper (first result *idr.Node) whose path cannot be computed by a function of its own package selects nothing — pinned by parse_test.go (\"computeXPath failed so we default value to nil\")")
+			case allow[key] != "" || r7selectionHelper(f, call) || r7xpathComputation(f, call):
+				c.Arg(rule, key, core.InstrPos(bad), "intended: a selection whose path cannot be computed (the failing call is the function of this package whose string result is the query handed to package idr, or this function is a node-selection helper) selects nothing — pinned by parse_test.go (\"computeXPath failed so we default value to nil\")")
 			default:
 				c.Bad(rule, key, core.InstrPos(bad), "a return with a nil error is reachable from the edge on which the error of "+callee+" is non-nil: the failure is swallowed and the record is emitted (or omitted) as if nothing happened")
 			}
@@ -882,10 +965,30 @@ func zoneNamesUninterpreted(c *core.Ctx, rule string, pkgs []string) {
 					}
 				}
 			}
+		case *ssa.Field:
+			if _, isParam := x.X.(*ssa.Parameter); isParam {
+				return // field of a parameter object (a small struct carrying the zone names)
+			}
+			c.Bad(rule, fk+" zone name is derived", core.InstrPos(at), "the zone name handed to the zone lookup is a field of a value this rule cannot attribute to a parameter")
 		case *ssa.UnOp:
 			if ia, ok := x.X.(*ssa.IndexAddr); ok && x.Op == token.MUL {
 				if _, isParam := ia.X.(*ssa.Parameter); isParam {
 					return // element of a (variadic) parameter
+				}
+			}
+			if fa, ok := x.X.(*ssa.FieldAddr); ok && x.Op == token.MUL {
+				switch b := fa.X.(type) {
+				case *ssa.Parameter:
+					return // field of a parameter object
+				case *ssa.Alloc:
+					// a by-value struct parameter spilled to a local cell
+					for _, u := range core.Referrers(b) {
+						if st, ok := u.(*ssa.Store); ok && st.Addr == b {
+							if _, isParam := st.Val.(*ssa.Parameter); isParam {
+								return
+							}
+						}
+					}
 				}
 			}
 			c.Bad(rule, fk+" zone name is derived", core.InstrPos(at), "the zone name handed to the zone lookup is loaded from memory this rule cannot attribute to a parameter")
@@ -938,8 +1041,13 @@ func zoneNamesUninterpreted(c *core.Ctx, rule string, pkgs []string) {
 					if callee != nil && callee.Blocks != nil && core.FuncPkg(callee) == core.FuncPkg(p.Parent()) {
 						ok := false
 						for j, a := range x.Common().Args {
-							if a == v && j < len(callee.Params) && marked[callee.Params[j]] {
+							if a == v && j < len(callee.Params) {
 								ok = true
+								if cp := callee.Params[j]; !marked[cp] {
+									// a helper that is handed the name (a predicate such as isSet): its uses are examined like ours
+									marked[cp] = true
+									order = append(order, cp)
+								}
 							}
 						}
 						if ok {
@@ -1128,9 +1236,24 @@ func cursorNotRestartedAtRoot(c *core.Ctx, rule string) {
 			continue
 		}
 		nodeFields := map[*types.Var]bool{}
+		owners := map[*types.Named]bool{named: true}
 		for i := 0; i < st.NumFields(); i++ {
-			if isNodePtr(st.Field(i).Type()) {
-				nodeFields[st.Field(i)] = true
+			fl := st.Field(i)
+			if isNodePtr(fl.Type()) {
+				nodeFields[fl] = true
+			}
+			// position fields grouped in an embedded struct (benign 33)
+			if fl.Embedded() {
+				if en := core.NamedOf(fl.Type()); en != nil {
+					if est, ok := en.Underlying().(*types.Struct); ok {
+						for j := 0; j < est.NumFields(); j++ {
+							if isNodePtr(est.Field(j).Type()) {
+								nodeFields[est.Field(j)] = true
+								owners[en] = true
+							}
+						}
+					}
+				}
 			}
 		}
 		if len(nodeFields) < 2 {
@@ -1151,7 +1274,7 @@ func cursorNotRestartedAtRoot(c *core.Ctx, rule string) {
 		written := map[*types.Var]bool{}
 		for _, f := range methods {
 			for _, w := range core.Writes(f) {
-				if w.Kind == "field" && nodeFields[w.Field] && w.Owner == named {
+				if w.Kind == "field" && nodeFields[w.Field] && owners[w.Owner] {
 					written[w.Field] = true
 				}
 			}
@@ -1196,7 +1319,7 @@ func cursorNotRestartedAtRoot(c *core.Ctx, rule string) {
 		bad := false
 		for _, f := range methods {
 			for _, w := range core.Writes(f) {
-				if w.Kind != "field" || !nodeFields[w.Field] || w.Owner != named || w.Val == nil {
+				if w.Kind != "field" || !nodeFields[w.Field] || !owners[w.Owner] || w.Val == nil {
 					continue
 				}
 				if isRoot(w.Val) {
